@@ -29,6 +29,7 @@ type Clause struct {
 	Uses  []string // lemmas / axioms made available for this clause only ("... @uses a, b")
 	Ghost bool     // ("... @ghost") a postcondition of a function-type contract about ghost state only: the ghost step is
 	// performed by the protocol, so implementers assume it at exit (after the ghost is advanced) instead of proving it
+	Early bool     // ("have ... @early") an intermediate fact established before the tensors allocated in this call are published
 	Opt   string   // optional postcondition group ("... @opt name"): assumed only by callers that declare "wants name"
 }
 
@@ -380,6 +381,11 @@ func (p *Program) parseSpecs(pkg *packages.Package) {
 					var uses []string
 					opt := ""
 					ghost := false
+					early := false
+					if i := strings.Index(src, "@early"); i >= 0 {
+						early = true
+						src = strings.TrimSpace(src[:i]) + " " + strings.TrimSpace(src[i+6:])
+					}
 					if i := strings.Index(src, "@ghost"); i >= 0 {
 						ghost = true
 						src = strings.TrimSpace(src[:i]) + " " + strings.TrimSpace(src[i+6:])
@@ -403,6 +409,7 @@ func (p *Program) parseSpecs(pkg *packages.Package) {
 					c.Uses = uses
 					c.Opt = opt
 					c.Ghost = ghost
+					c.Early = early
 					return c, ok
 				}
 				_ = mk
